@@ -17,6 +17,10 @@ class KernelDead(BaseException):
     """Raised by every primitive once the kernel has been torn down (harness finished)."""
 
 
+class Livelock(BaseException):
+    """A task keeps calling blocking primitives that never block (it would spin for ever at 100% CPU)."""
+
+
 class CancelledError(BaseException):
     pass
 
@@ -154,6 +158,8 @@ class Kernel:
         self._scope = 0
         self.steps = 0
         self.max_steps = 20000
+        self._spin = 0
+        self.max_spin = 5000
 
     # ------------------------------------------------------------------ spawning
     def spawn_greenlet(self, fn, *a, name=None, **kw):
@@ -190,13 +196,23 @@ class Kernel:
             raise RuntimeError('blocking call (%s) outside a greenlet task' % what)
         while True:
             if cond():
+                self._spinning(t, what)
                 return True
             if deadline is not None and self.now >= deadline:
+                self._spinning(t, what)
                 return False
             t.cond, t.deadline, t.what = cond, deadline, what
+            self._spin = 0
             self.main.switch()
             if self.dead:
                 raise KernelDead()
+
+    def _spinning(self, t, what):
+        self._spin += 1
+        if self._spin > self.max_spin:
+            self._spin = 0
+            raise Livelock('task %r made %d calls to blocking primitives (last: %s) without ever blocking' % (
+                t.name, self.max_spin, what))
 
     async def ablock(self, cond, deadline=None, what=''):
         """Coroutine side. Honours the wait_for scopes of the current task (cancellation of the inner await)."""
@@ -213,9 +229,12 @@ class Kernel:
                 if self.now >= dl:
                     raise _ScopeTimeout(sid)
             if cond():
+                self._spinning(t, what)
                 return True
             if deadline is not None and self.now >= deadline:
+                self._spinning(t, what)
                 return False
+            self._spin = 0
             dls = [dl for _, dl in t.scopes]
             if deadline is not None:
                 dls.append(deadline)
@@ -239,6 +258,7 @@ class Kernel:
         return t.deadline is not None and self.now >= t.deadline
 
     def _step(self, t):
+        self._spin = 0
         t.cond = None
         t.what = None
         self.current = t
